@@ -33,7 +33,7 @@ inductive Out (α : Type)
   | ok (a : α)
   | throw (e : Exc)
   | fault (site : String)
-deriving Repr
+deriving Repr, DecidableEq
 
 namespace Out
 @[inline] def bind {α β} (x : Out α) (f : α → Out β) : Out β :=
@@ -132,7 +132,7 @@ structure Msg where
   ai : Nat := 0                    -- answers_idx_
   ui : Nat := 0                    -- authority_idx_
   di : Nat := 0                    -- additional_idx_
-deriving Repr
+deriving Repr, DecidableEq
 
 structure Query where
   name : Bytes
